@@ -532,8 +532,9 @@ func main() {
 	dir := filepath.Join(*repo, "util", "hll")
 	collect(parse(filepath.Join(dir, "RegisterSet.go")))
 	collect(parse(filepath.Join(dir, "HyperLogLog.go")))
+	collect(parse(filepath.Join(dir, "MurmurHash.go")))
 
-	fmt.Fprintf(&out, "-- generated by xlate/c14 from %s/util/hll — do not edit\nimport Golib.HLL.SrcProg\n\nnamespace Gen.C14\nopen HLL.Src\n\n", "<repo>")
+	fmt.Fprintf(&out, "-- generated by xlate/c14 from %s/util/hll — do not edit\nimport Golib.HLL.SrcProg\nimport Golib.HLL.SrcHash\n\nnamespace Gen.C14\nopen HLL.Src\n\n", "<repo>")
 
 	// constants
 	for _, c := range []string{"LOG2_BITS_PER_WORD", "REGISTER_SIZE"} {
@@ -826,6 +827,10 @@ func main() {
 	} {
 		def(fn.lean, "List String", skeleton(funcs[fn.name]))
 	}
+
+	// the hash: straight-line bodies, executed symbolically (re-assignments become nested expressions)
+	def("murmurLong", "Ex", symExec(funcs["MurmurHashLong"]))
+	def("murmur32", "Ex", symExec(funcs["MurmurHash"]))
 
 	def("getBytesProg", "List WStep", writerProg(funcs["HyperLogLog.GetBytes"]))
 	def("buildProg", "List RStep", readerProg(funcs["BuildHyperLogLog"]))
@@ -1253,4 +1258,66 @@ func readerProg(fd *ast.FuncDecl) string {
 		}
 	}
 	return "[" + strings.Join(steps, ",\n   ") + "]"
+}
+
+// ---------------------------------------------------------------- straight-line symbolic execution
+
+var assignOp = map[token.Token]token.Token{
+	token.ADD_ASSIGN: token.ADD, token.SUB_ASSIGN: token.SUB, token.MUL_ASSIGN: token.MUL, token.QUO_ASSIGN: token.QUO,
+	token.REM_ASSIGN: token.REM, token.AND_ASSIGN: token.AND, token.OR_ASSIGN: token.OR, token.XOR_ASSIGN: token.XOR,
+	token.SHL_ASSIGN: token.SHL, token.SHR_ASSIGN: token.SHR, token.AND_NOT_ASSIGN: token.AND_NOT,
+}
+
+// symExec: a body of `x := e`, `x = e`, `x op= e` and a final `return e`; every variable is
+// replaced by its current value, so the result is one expression over the parameters.
+func symExec(fd *ast.FuncDecl) string {
+	if fd == nil {
+		return unknown("function not found")
+	}
+	s := newScope(fd)
+	for _, st := range fd.Body.List {
+		switch st := st.(type) {
+		case *ast.AssignStmt:
+			if len(st.Lhs) != 1 || len(st.Rhs) != 1 {
+				return unknown("assignment shape")
+			}
+			id, ok := st.Lhs[0].(*ast.Ident)
+			if !ok {
+				return unknown("assignment target")
+			}
+			switch {
+			case st.Tok == token.DEFINE:
+				v := s.tr(st.Rhs[0], 0)
+				if v.tag == 0 {
+					v.tag = 63
+				}
+				s.inl[id.Name] = v
+			case st.Tok == token.ASSIGN:
+				old, ok := s.inl[id.Name]
+				if !ok {
+					return unknown("assignment to an unknown variable")
+				}
+				v := s.tr(st.Rhs[0], old.tag)
+				v.tag = old.tag
+				s.inl[id.Name] = v
+			default:
+				op, ok := assignOp[st.Tok]
+				old, ok2 := s.inl[id.Name]
+				if !ok || !ok2 {
+					return unknown("assignment operator")
+				}
+				v := s.tr(&ast.BinaryExpr{X: id, Op: op, Y: st.Rhs[0]}, old.tag)
+				v.tag = old.tag
+				s.inl[id.Name] = v
+			}
+		case *ast.ReturnStmt:
+			if len(st.Results) != 1 {
+				return unknown("return shape")
+			}
+			return s.tr(st.Results[0], 0).ex
+		default:
+			return unknown("not straight-line: " + typeText2(st))
+		}
+	}
+	return unknown("no return")
 }
